@@ -61,7 +61,7 @@ def fixed_cases(tier):
 
 
 def n_generated(tier):
-    return 900 if tier == "quick" else 6000
+    return 400 if tier == "quick" else 6000
 
 
 def strategy(tier):
